@@ -127,6 +127,7 @@ func directedCells() []cell {
 	cs = append(cs, findingProbes()...)
 	cs = append(cs, rangeReturnCells()...)
 	cs = append(cs, deferArgCells()...)
+	cs = append(cs, structCopyCells()...)
 	return cs
 }
 
